@@ -147,9 +147,20 @@ class Tie:
         self.ctx = ctx
         self.isa = isa
         self.gen_name = "PostA64Gen" if isa == "a64" else "PostX86Gen"
-        # property files, compiled in this order against the regenerated text (lemmas first; `Theorem`s are the obligations)
-        self.props_chain = ["PropsGen/C10postOps.v", "PropsGen/C10post.v"] if isa == "a64" else []
-        self.props = self.props_chain[-1] if self.props_chain else "PropsGen/-"
+        # property files compiled against the regenerated text: (file, the property files it Requires).  Independent files are
+        # compiled in parallel; every `Theorem`/`Corollary` of a file is one obligation (a file that fails breaks only its own
+        # theorems and those of the files that Require it).
+        if isa == "a64":
+            self.props_dag = [("PropsGen/C10postOps.v", []),
+                              ("PropsGen/C10post.v", ["PropsGen/C10postOps.v"]),
+                              ("PropsGen/C10postList.v", []),
+                              ("PropsGen/C10postFile.v", []),
+                              ("PropsGen/C10postInstr.v", ["PropsGen/C10postList.v"]),
+                              ("PropsGen/C10post2.v", ["PropsGen/C10post.v", "PropsGen/C10postList.v", "PropsGen/C10postInstr.v"])]
+        else:
+            self.props_dag = [("PropsGen/C09postFile.v", [])]
+        self.props_chain = [f for f, _ in self.props_dag]
+        self.props = " + ".join(os.path.basename(f) for f in self.props_chain) if self.props_chain else "PropsGen/-"
         self._thread = None
         self._proof = None
         self.dir = os.path.join(ctx.scratch, "cases")
@@ -157,8 +168,11 @@ class Tie:
         self.proved = False
         self.meta = {}
 
-    def theorem_names(self):
-        path = os.path.join(vlib.COQ, self.props)
+    def theorem_names(self, rel=None):
+        """[(property file, theorem)] of all property files, or the theorem names of one"""
+        if rel is None:
+            return [(r, n) for r in self.props_chain for n in self.theorem_names(r)]
+        path = os.path.join(vlib.COQ, rel)
         if not os.path.exists(path):
             return []
         return re.findall(r"^(?:Theorem|Corollary)\s+([A-Za-z0-9_']+)", open(path).read(), re.M)
@@ -173,8 +187,8 @@ class Tie:
                        % (what, ", ".join(meta.get("methods", [])) or "-"), "translation", ok, "" if ok else text)
         names = self.theorem_names()
         if not ok:
-            for n in names:
-                ctx.obligation("theorem %s (%s)" % (n, self.props), "theorem", False, "generated definitions unavailable: " + text)
+            for r, n in names:
+                ctx.obligation("theorem %s (%s)" % (n, r), "theorem", False, "generated definitions unavailable: " + text)
             return self
         if vlib.REPO == "/repo":
             try:        # a copy for the reader (never compiled from there)
@@ -190,8 +204,8 @@ class Tie:
         bad = vlib.hygiene_scan(self.dir)
         ctx.obligation("generated %s.v declares no axiom" % self.gen_name, "hygiene", not bad, "\n".join(bad))
         if not c:
-            for n in names:
-                ctx.obligation("theorem %s (%s)" % (n, self.props), "theorem", False, "generated definitions do not compile")
+            for r, n in names:
+                ctx.obligation("theorem %s (%s)" % (n, r), "theorem", False, "generated definitions do not compile")
             return self
         self.ok = True
         self._dt_gen = dt
@@ -210,15 +224,53 @@ class Tie:
         h.update(open(os.path.join(self.dir, self.gen_name + ".v"), "rb").read())
         for rel in self.props_chain:
             h.update(open(os.path.join(vlib.COQ, rel), "rb").read())
-        for sub in ("Model", "Proofs"):
-            d = os.path.join(vlib.COQ, sub)
-            for fn in sorted(os.listdir(d)):
-                if fn.endswith(".v"):
-                    h.update(fn.encode())
-                    h.update(open(os.path.join(d, fn), "rb").read())
+        for fn in self._static_deps():
+            h.update(fn.encode())
+            h.update(open(os.path.join(vlib.COQ, fn), "rb").read())
         rc, ver = vlib.sh("coqc --version", timeout=30)
         h.update(ver.encode())
         return h.hexdigest()[:32]
+
+    def _static_deps(self):
+        """the static sources (relative to coq/) the generated file and the property files transitively Require; every Model/ and
+        Proofs/ file when a Require line is not of the form `From OV Require Import A.B ...` (then nothing is assumed)"""
+        pat = re.compile(r"^\s*(?:From\s+(\w+)\s+)?Require\s+(?:Import\s+|Export\s+)?([^.]*(?:\.[A-Za-z_][^.\s]*)*)\s*\.\s*$", re.M)
+        seen, todo, fallback = [], [os.path.join(self.dir, self.gen_name + ".v")] + [os.path.join(vlib.COQ, r) for r in self.props_chain], False
+        visited = set()
+        while todo:
+            f = todo.pop()
+            if f in visited:
+                continue
+            visited.add(f)
+            try:
+                text = re.sub(r"\(\*.*?\*\)", " ", open(f).read(), flags=re.S)
+            except OSError:
+                fallback = True
+                continue
+            for m in re.finditer(r"^\s*(From\s+(\w+)\s+)?Require\b([^\n]*)$", text, re.M):
+                root, rest = m.group(2), m.group(3)
+                mods = re.findall(r"[A-Za-z_][A-Za-z0-9_']*(?:\.[A-Za-z_][A-Za-z0-9_']*)*", rest.replace("Import", " ").replace("Export", " "))
+                if root in ("Coq", "OVC"):
+                    continue
+                if root != "OV":
+                    if all(x.startswith("Coq.") for x in mods):
+                        continue
+                    fallback = True
+                    continue
+                for x in mods:
+                    rel = x.replace(".", "/") + ".v"
+                    if os.path.exists(os.path.join(vlib.COQ, rel)):
+                        if rel not in seen:
+                            seen.append(rel)
+                            todo.append(os.path.join(vlib.COQ, rel))
+                    else:
+                        fallback = True
+        if fallback:
+            seen = []
+            for sub in ("Model", "Proofs"):
+                d = os.path.join(vlib.COQ, sub)
+                seen += [sub + "/" + fn for fn in os.listdir(d) if fn.endswith(".v")]
+        return sorted(set(seen))
 
     def _compile_props(self):
         """coqc of the property chain against this run's regenerated text.  coqc is deterministic: when exactly this check
@@ -233,34 +285,54 @@ class Tie:
             key = self._cache_key()
             cfile = os.path.join(cdir, key + ".out")
             if not os.environ.get("VERIF_NO_PROOF_CACHE") and os.path.exists(cfile):
-                self._proof = (True, open(cfile).read(), time.time() - t0, "recorded result of the identical check")
-                return
-        except OSError:
-            key = None
-        out = ""
-        ok = True
-        for rel in self.props_chain:
-            src = open(os.path.join(vlib.COQ, rel)).read()
-            vfile = os.path.join(self.dir, os.path.basename(rel))
-            with open(vfile, "w") as f:
-                f.write(src)
-            cmd = "ulimit -s unlimited 2>/dev/null; exec timeout 2400 coqc -q -w -all -Q %s OV -Q %s OVC %s" % (vlib.COQ, self.dir, vfile)
-            rc, o = vlib.sh(cmd, timeout=2430, cwd=self.dir)
-            out = o
-            if rc != 0:
-                ok = False
-                out = "%s: %s" % (rel, o[-3000:])
-                break
+                import json as _json
+                rec = _json.load(open(cfile))
+                if isinstance(rec, dict) and set(rec) == set(self.props_chain):
+                    self._proof = (True, {rel: (True, rec[rel]) for rel in self.props_chain}, time.time() - t0, "recorded result of the identical check")
+                    return
+        except (OSError, ValueError):
+            pass
+        import json
+        import threading
+        results = {}
+        done = {rel: threading.Event() for rel in self.props_chain}
+
+        def job(rel, deps):
+            try:
+                for d in deps:
+                    done[d].wait()
+                failed = [d for d in deps if not results[d][0]]
+                if failed:
+                    results[rel] = (False, "not compiled: it Requires %s, which failed" % ", ".join(failed))
+                    return
+                src = open(os.path.join(vlib.COQ, rel)).read()
+                vfile = os.path.join(self.dir, os.path.basename(rel))
+                with open(vfile, "w") as f:
+                    f.write(src)
+                cmd = "ulimit -s unlimited 2>/dev/null; exec timeout 2400 coqc -q -w -all -Q %s OV -Q %s OVC %s" % (vlib.COQ, self.dir, vfile)
+                rc, o = vlib.sh(cmd, timeout=2430, cwd=self.dir)
+                results[rel] = (rc == 0, o if rc == 0 else "%s: %s" % (rel, o[-3000:]))
+            except Exception as e:  # noqa
+                results[rel] = (False, "%s: %r" % (rel, e))
+            finally:
+                done[rel].set()
+
+        threads = [threading.Thread(target=job, args=(rel, deps)) for rel, deps in self.props_dag]
+        for t in threads:
+            t.start()
+        for t in threads:
+            t.join()
+        ok = all(results[rel][0] for rel in self.props_chain)
         if ok and key is not None:
             try:
                 os.makedirs(cdir, exist_ok=True)
                 tmp = os.path.join(cdir, key + ".tmp%d" % os.getpid())
                 with open(tmp, "w") as f:
-                    f.write(out)
+                    json.dump({rel: results[rel][1] for rel in self.props_chain}, f)
                 os.replace(tmp, os.path.join(cdir, key + ".out"))
             except OSError:
                 pass
-        self._proof = (ok, out, time.time() - t0, "coqc")
+        self._proof = (ok, results, time.time() - t0, "coqc")
 
     def finish_T(self):
         """collect the proofs started by run_T: one obligation per Theorem of the last file of the chain"""
@@ -268,15 +340,18 @@ class Tie:
         if self._thread is None:
             return
         self._thread.join()
-        ok, out, dt, how = self._proof
+        ok, results, dt, how = self._proof
         names = self.theorem_names()
-        for n in names:
-            ctx.obligation("theorem %s (%s)" % (n, self.props), "theorem", ok, "" if ok else out)
-        if ok:
-            ctx.print_assumptions[self.props] = vlib.parse_assumptions(out)
+        for rel in self.props_chain:
+            fok, fout = results.get(rel, (False, "not compiled"))
+            for n in self.theorem_names(rel):
+                ctx.obligation("theorem %s (%s)" % (n, rel), "theorem", fok, "" if fok else fout)
+            if fok and self.theorem_names(rel):
+                ctx.print_assumptions[rel] = vlib.parse_assumptions(fout)
         ctx.checker_cmds.append("coqc -Q coq OV -Q <scratch> OVC %s" % " ".join(self.props_chain))
         ctx.log("T(post): %s.v generated (%d lines), coqc %.1fs; %s: %s in %.1fs (%d theorems)" % (
-            self.gen_name, self._gen_lines, self._dt_gen, " + ".join(self.props_chain), ("ok (%s)" % how) if ok else "FAILED", dt, len(names)))
+            self.gen_name, self._gen_lines, self._dt_gen, " + ".join(os.path.basename(f) for f in self.props_chain),
+            ("ok (%s)" % how) if ok else "FAILED", dt, len(names)))
         self.proved = ok
 
     # -------------------------------------------------------------- stage 3 (b): translated parse_line vs Python parse_line
@@ -433,7 +508,7 @@ def a64_tree_shard(tie, p, cases):
         st = "; ".join("(%s, (PStr %s), %s)" % (coq_str(e), coq_str(c["line"]), stage[e] or "(Raise Unmodelled)") for e in A64_LINE_ELEMS)
         mem = "; ".join("(\"list_element\", (PStr %s), %s)" % (coq_str(w), t or "(Raise Unmodelled)") for w, t in members)
         rows.append("  (%s, %s, PStr %s, [%s])" % (c["coq"], dirx_term(p, c["line"]), coq_str(c["line"]), st + ("; " + mem if mem else "")))
-    return (PRELUDE % tie.gen_name + """From OV Require Import Model.LexA64 Model.ParseA64 Model.SyntaxA64 Model.PostA64.
+    return (PRELUDE % tie.gen_name + """From OV Require Import Model.LexA64 Model.ParseA64 Model.SyntaxA64 Model.PostA64 Model.PostMembers.
 Definition cases : list (wline * dirx * pyval * list (string * pyval * res pyval)) := [
 %s ].
 Definition stage_same (r e : res pyval) : bool :=
@@ -448,9 +523,11 @@ Definition g_thm (c : wline * dirx * pyval * list (string * pyval * res pyval)) 
     same_res (g_parse_line (gr_stage t x) line (PInt 3%%Z)) (Ok (emb_form (denote t) x line (PInt 3%%Z))) end.
 Definition g_lang (c : wline * dirx * pyval * list (string * pyval * res pyval)) : bool :=
   match c with (t, _, _, _) => wline_okb fx_all t end.
+Definition g_mem (c : wline * dirx * pyval * list (string * pyval * res pyval)) : bool :=
+  match c with (t, _, _, _) => members_okb t end.
 Definition failing (g : _ -> bool) : string :=
   idxs (fun i => match nth_error cases i with Some c => negb (g c) | None => true end) (length cases).
-Eval vm_compute in (failing g_lang ++ "|" ++ failing g_stage ++ "|" ++ failing g_thm).
+Eval vm_compute in (failing g_lang ++ "|" ++ failing g_stage ++ "|" ++ failing g_thm ++ "|" ++ failing g_mem).
 """ % ";\n".join(rows))
 
 
@@ -477,7 +554,8 @@ def a64_tree_stream(tie, p, cases, per=200):
     shards = [("post_a64_tree_%03d" % k, a64_tree_shard(tie, p, cases[i:i + per])) for k, i in enumerate(range(0, len(cases), per))]
     res = ctx.coq_eval_many(shards, timeout=900)
     names = ["tree is in the language wline_okb fx_all", "grammar stage: gr_stage tree = REAL pyparsing result (every element parse_line tries, "
-             "list_element on list members; dictionaries as finite maps)", "theorem instance: translated parse_line (gr_stage tree) = emb_form (denote tree)"]
+             "list_element on list members; dictionaries as finite maps)", "theorem instance: translated parse_line (gr_stage tree) = emb_form (denote tree)",
+             "hypothesis members_okb of C10post_line / C10post_instr_line holds (list members spelled alike are the same register)"]
     fails = {n: [] for n in names}
     broken = []
     for k, (ok, out) in enumerate(res):
@@ -511,8 +589,9 @@ def run_a64(ctx, p, cases, extra_lines=()):
     ctx.trusted += ["tools/gen_parsepost.py + tools/py2coq_dyn.py (translator; cross-checked: the translated parse_line run on the real pyparsing "
                     "dictionaries returns every field of what the Python parse_line returns, every run) and coq/Model/PyDyn.v + PyPost.v (semantics of the "
                     "Python subset); coq/Model/PostA64.v gr_* (grammar result of a written tree; compared with real pyparsing output on every generated line)"]
-    ctx.assumptions += ["C10post_*_partial: operands other than register lists / ranges (their expansion loop is tied by evaluating the same statement on "
-                        "every generated tree); directive parameters / further keys / comment words as the grammar delivered them (free)"]
+    ctx.assumptions += ["C10post_line: the decidable hypothesis members_okb (the grammar element list_element is a function of the member's text) is "
+                        "evaluated on every generated tree; directive parameters / further keys / comment words as the grammar delivered them (free); "
+                        "C10post_list / C10post_operand: for every oracle that answers list_element on the members as gr_wreg (gr_stage does: stage a)"]
     tie = Tie(ctx, "a64").run_T()
     n_tr = ctx.n(500, 6000)
     lines = list(extra_lines) + [c["line"] for c in cases[:n_tr]]
